@@ -112,6 +112,12 @@ video_sink_start(struct video_sink_s* self)
            device_state_as_string(storage_get_state(self->storage)));
 
     channel_accept_writes(&self->in, 1);
+    // Register this sink's reader with the channel before any frame can be
+    // written. While a channel has no registered reader its writer free-runs
+    // and may wrap, so frames written before the sink thread's first read
+    // would be overwritten and never reach storage.
+    channel_read_map(&self->in, &self->reader);
+    channel_read_unmap(&self->in, &self->reader, 0);
     self->is_stopping = 0;
     self->is_running = 1;
     CHECK(
